@@ -19,6 +19,25 @@ pub fn stub_format(_a: std::fmt::Arguments<'_>) -> String {
     String::new()
 }
 
+// Markers for everything a blacklisted request must never reach. Under Kani they replace the real functions (which would drag
+// the file system, the clock and error formatting into the symbolic execution) and fail the proof if they are reachable.
+#[cfg(kani)]
+pub fn stub_cache_get<'a>(_c: &'a humphrey_server::cache::Cache, _r: &str, _h: usize) -> Option<&'a humphrey_server::cache::CachedItem> {
+    panic!("C19: the cache was consulted for a blacklisted origin")
+}
+#[cfg(kani)]
+pub fn stub_file_open<P: AsRef<std::path::Path>>(_p: P) -> std::io::Result<std::fs::File> {
+    panic!("C19: the file system was accessed for a blacklisted origin")
+}
+#[cfg(kani)]
+pub fn stub_try_find_path(_d: &str, _p: &str, _i: &[&str]) -> Option<humphrey::route::LocatedPath> {
+    panic!("C19: the file system was searched for a blacklisted origin")
+}
+#[cfg(kani)]
+pub fn stub_proxy_request(_r: &Request, _t: std::net::SocketAddr, _d: std::time::Duration) -> Response {
+    panic!("C19: the upstream was contacted for a blacklisted origin")
+}
+
 pub static mut PEER: [u8; 4] = [127, 0, 0, 1];
 
 #[cfg(kani)]
@@ -28,25 +47,32 @@ pub fn stub_peer_addr(_s: &std::net::TcpStream) -> std::io::Result<std::net::Soc
 }
 
 fn state(list: Vec<IpAddr>, block: bool, cache_on: bool) -> Arc<AppState> {
-    let mut c = Config::default();
-    c.blacklist.list = list;
-    c.blacklist.mode = if block { BlacklistMode::Block } else { BlacklistMode::Forbidden };
-    c.cache.size_limit = if cache_on { 4096 } else { 0 };
-    c.cache.time_limit = 60;
-    c.logging.console = false;
-    c.logging.level = LogLevel::Error;
+    use humphrey_server::config::{BlacklistConfig, CacheConfig, ConfigSource, HostConfig, LoggingConfig};
+    // a minimal configuration written out field by field (Config::default() allocates a dozen strings and a default
+    // route, whose construction and drop glue dominate the symbolic execution)
+    let c = Config {
+        source: ConfigSource::Default,
+        address: String::new(),
+        port: 80,
+        threads: 1,
+        default_websocket_proxy: None,
+        hosts: Vec::new(),
+        default_host: HostConfig { matches: String::new(), routes: Vec::new() },
+        logging: LoggingConfig { level: LogLevel::Error, console: false, file: None },
+        cache: CacheConfig { size_limit: if cache_on { 4096 } else { 0 }, time_limit: 60 },
+        blacklist: BlacklistConfig { list, mode: if block { BlacklistMode::Block } else { BlacklistMode::Forbidden } },
+        connection_timeout: None,
+    };
     Arc::new(AppState::from(c))
 }
 
 fn request(origin: IpAddr) -> Request {
-    let mut headers = Headers::new();
-    headers.add(HeaderType::Host, "h");
     Request {
         method: Method::Get,
-        uri: String::from("/f.txt"),
+        uri: String::from("/f"),
         query: String::new(),
-        version: String::from("HTTP/1.1"),
-        headers,
+        version: String::new(),
+        headers: Headers::new(),
         content: None,
         address: Address { origin_addr: origin, proxies: Vec::new(), port: 80 },
     }
@@ -65,18 +91,17 @@ fn v6<S: Src>(s: &mut S) -> IpAddr {
 }
 
 fn is_403(r: &Response) -> bool {
+    // "<h1>403 Forbidden</h1>" — compared without a loop (length + probe bytes) to keep the unwinding bound small
     let body = b"<h1>403 Forbidden</h1>";
-    if r.status_code != StatusCode::Forbidden || r.body.len() != body.len() {
-        return false;
-    }
-    let mut i = 0;
-    while i < body.len() {
-        if r.body[i] != body[i] {
-            return false;
-        }
-        i += 1;
-    }
-    true
+    r.status_code == StatusCode::Forbidden
+        && r.body.len() == body.len()
+        && r.body[0] == body[0]
+        && r.body[4] == body[4]
+        && r.body[5] == body[5]
+        && r.body[6] == body[6]
+        && r.body[8] == body[8]
+        && r.body[16] == body[16]
+        && r.body[21] == body[21]
 }
 
 /// Listed origin (N symbolic list entries, V6 = 1 for IPv6) -> every handler answers 403 without touching file system,
@@ -102,6 +127,11 @@ pub fn listed<S: Src, const N: usize, const ROUTE: usize, const V6: usize>(s: &m
     let cache_on = s.bool();
     let st = state(list, block, cache_on);
     let req = request(origin);
+    // natively (replay) nothing is stubbed: make a consulted cache observable by putting content for this very request into it
+    #[cfg(not(kani))]
+    if cache_on {
+        st.cache.write().unwrap().set("/f", 0, b"cached secret".to_vec(), humphrey::http::mime::MimeType::TextPlain);
+    }
     let resp = match ROUTE {
         0 => file_handler(req, st.clone(), "/nonexistent/f.txt", 0),
         1 => directory_handler(req, st.clone(), "/nonexistent", "/*", 0),
@@ -198,3 +228,4 @@ pub fn connection<S: Src, const N: usize>(s: &mut S) {
 }
 
 include!("gen/c19_list.rs");
+
